@@ -33,6 +33,7 @@ def group_defined(ver, m, group):
 
 def check_object(P, ver, s, deep=True, after=None):
     """after: vectors constructed and serialised in this process just before (kept in the witness)."""
+    P.remember({"ver": ver, "vector": s})
     L = lib()
     P.evaluations += 1
     case = {"ver": ver, "vector": s}
